@@ -362,7 +362,7 @@ func RunC11(ch *core.Chooser, env *Env) *Outcome {
 	opKinds := []int{workload.OpDNS, workload.OpDNS, workload.OpWeb, workload.OpMatchAll, workload.OpMatch, workload.OpCosmetic}
 	var reqs []workload.Op
 	for i := 0; i < 8; i++ {
-		reqs = append(reqs, workload.GenOp(ch, hosts, opKinds))
+		reqs = append(reqs, workload.GenOpFor(ch, hosts, opKinds, planLines(lists)))
 	}
 	var engineAnswers [][]string
 
